@@ -114,9 +114,13 @@ func (m *gmap) delete(i *interpreter, k value) {
 type gmapIter struct {
 	m   *gmap
 	pos int
+	i   *interpreter
 }
 
 func (it *gmapIter) next() tuple {
+	if it.i != nil {
+		it.i.guardCheck(it.m, false, "range step")
+	}
 	if it.m != nil {
 		for it.pos < len(it.m.entries) {
 			e := it.m.entries[it.pos]
